@@ -117,6 +117,8 @@ func simReplayMain(args []string) int {
 			Scenario json.RawMessage `json:"scenario"`
 			Hist     []simEvent      `json:"hist"`
 			Oracle   string          `json:"oracle"`
+			Final    string          `json:"final"`
+			Prefix   []simEvent      `json:"prefix"`
 		} `json:"replay"`
 	}
 	if err := json.Unmarshal(b, &art); err != nil {
@@ -130,6 +132,35 @@ func simReplayMain(args []string) int {
 	}
 	var obs [2]string
 	hit := false
+	if art.Replay.Final != "" {
+		// found by a final check (fair continuation / shutdown sweep): the same check is run again from the explored history
+		if sc.Final == "" {
+			sc.Final = art.Replay.Final
+		}
+		for round := 0; round < 2; round++ {
+			var keys []string
+			for _, v := range finalCheck(&sc, art.Replay.Prefix) {
+				keys = append(keys, v.Oracle+":"+v.Key)
+				if round == 0 {
+					fmt.Printf("observed %s:%s %s\n", v.Oracle, v.Key, v.Desc)
+				}
+				if v.Oracle+":"+v.Key == art.Key || v.Key == art.Key {
+					hit = true
+				}
+			}
+			obs[round] = strings.Join(keys, " ")
+		}
+		if obs[0] != obs[1] {
+			fmt.Println("REPLAY-NONDETERMINISTIC", obs)
+			return 2
+		}
+		if hit {
+			fmt.Printf("VIOLATION property=%s replay=%s\n", art.Property, args[0])
+			return 1
+		}
+		fmt.Println("replay: violation not reproduced")
+		return 0
+	}
 	for round := 0; round < 2; round++ {
 		simTrace = round == 0
 		s, err := replayHist(&sc, art.Replay.Hist)
